@@ -27,10 +27,12 @@ SCRIPTS = {
     "s2": ["CREATE TABLE IF NOT EXISTS h (", "  x int COMMENT 'cx',", "  y string", ")", "PARTITIONED BY (dt string)", "STORED AS PARQUET",
            "LOCATION 's3://a/b';", "CREATE TYPE s.m AS ENUM ('a', 'b');"],
     "s3": ["CREATE TABLE one (a int);", "CREATE TABLE two (", "  b int,", "  c int,", "  CONSTRAINT fk FOREIGN KEY (b) REFERENCES one (a)", ");"],
+    # statements separated by line breaks only (no ';'): the parenthesis balance of the pending statement decides where it ends
+    "s5": ["CREATE TABLE a (", "  x int,", "  y int", ")", "CREATE TABLE b (k int, m int)", "ALTER TABLE a ADD UNIQUE (x)", "CREATE TABLE c (", "  z int", ")"],
     "s4": ["SET x = 1;", "CREATE SCHEMA sc;", "CREATE TABLE sc.k (", "  v int CHECK (v > 0),", "  w int", ");", "CREATE DOMAIN sc.d AS varchar(3);"],
 }
 TEXTS = ["note", "a -- b", "---- sec ----", "create table x (y int);", "a, b (c) ; d", "CREATE ALTER DROP", "select * from t where a = 1", "",
-         "ALTER", "x ; y ;", "(", "GO"]
+         "ALTER", "x ; y ;", "(", "GO", "see note (1", "k; drop table t9; create table t9 (z int);", "later) ok"]
 MARKED_TEXTS = ["/* -- x */", "a /* b", "x */ y", "# z", "-- /* x", "a /* b */"]
 WHOLE = {"--": lambda t: ["-- %s" % t], "--nosp": lambda t: ["--%s" % t], "#": lambda t: ["# %s" % t], "b1": lambda t: ["/* %s */" % t],
          "b1nosp": lambda t: ["/*%s*/" % t], "b2": lambda t: ["/* %s" % t, "*/"], "b3": lambda t: ["/*", " %s" % t, "*/"],
